@@ -173,6 +173,12 @@ Theorem C10_assert_never_fires : forall e,
   starts_with MISSING_FIELD_COLON (merr_message_head e) = false.
 Proof. exact assert_never_fires. Qed.
 
+(* ... whatever client-supplied text (the echoed raw segment) follows the
+   fixed head of the message: no path VALUE can make it fire *)
+Theorem C10_assert_never_fires_on_client_text : forall e (client_text : str),
+  starts_with MISSING_FIELD_COLON (merr_message_head e ++ client_text) = false.
+Proof. exact assert_never_fires_any_tail. Qed.
+
 (* neither it nor an unimplemented! stub is reachable for a struct that
    registration accepts *)
 Theorem C10_path_never_panics : forall sp ws p,
@@ -244,5 +250,6 @@ Print Assumptions C10_all_extractors_must_succeed.
 Print Assumptions C10_first_failing_extractor_decides.
 Print Assumptions C10_handler_entered_iff_all_stages_ok.
 Print Assumptions C10_assert_never_fires.
+Print Assumptions C10_assert_never_fires_on_client_text.
 Print Assumptions C10_path_never_panics.
 Print Assumptions C10_registered_path_has_no_missing_field.
